@@ -457,7 +457,9 @@ func runDKG(t *testing.T, rc *RunCtx) {
 		}
 	default:
 		if out.State != pb.ResponseState_SUCCEEDED {
-			rc.Violate("C12", "valid-generation-failed", fmt.Sprintf("fault-free generation with n=%d t=%d ids=%v failed: %s", n, th, ids, out.Message), s.Step)
+			// C12 says what must hold when a generation reports success; it does not promise that a valid
+			// request succeeds.  A failing fault-free generation makes this run vacuous: inconclusive, not a violation.
+			rc.Violate("HARNESS", "vacuous-fault-free-generation-failed", fmt.Sprintf("fault-free generation with n=%d t=%d ids=%v failed: %s", n, th, ids, out.Message), s.Step)
 			return
 		}
 		rc.Stats.Inc("successful_generations", 1)
@@ -500,7 +502,7 @@ func runDKG(t *testing.T, rc *RunCtx) {
 					}
 				})
 			} else if o == "done" && out2.Done {
-				rc.Violate("C12", "valid-generation-failed", fmt.Sprintf("a second fault-free generation on the same cluster failed: %s", out2.Message), s.Step)
+				rc.Violate("HARNESS", "vacuous-fault-free-generation-failed", fmt.Sprintf("a second fault-free generation on the same cluster failed: %s", out2.Message), s.Step)
 			}
 		}
 		if len(rc.Viol) > 0 {
